@@ -238,7 +238,9 @@ def prog_model(env, case):
     elif backend == 'mosek':
         pipeline.enable_mosek_emulator()
     m = pipeline.build(env, spec)
-    tau = m.pep.solve(wrapper=backend, verbose=spec.get('verbose', 0))
+    tau, err = pipeline.safe_solve(env, m.pep, tag, wrapper=backend, verbose=spec.get('verbose', 0))
+    if err:
+        return err
     w = m.pep.wrapper
     if backend == 'mosek':
         from PEPit import Expression
